@@ -189,12 +189,58 @@ pub fn run(args: &Args) -> Report {
                 }
             }
         }
-        // deviations: single-token changes inside one instance, and balanced garbage
-        for k in 0..4 {
+        // deviations: single-token changes inside one instance, balanced garbage, and (k = 4) a member that is defined
+        // without `block` written as /begin TAG ... /end TAG (balanced, three tokens more, does not conform)
+        for k in 0..5 {
             let mut insts2 = insts.clone();
             let which = k % insts2.len();
             let fam;
-            if k == 3 || insts2[which].is_empty() {
+            if k == 4 {
+                // find a non-block tagged member without data or with scalar data among the instance's tokens: a tag
+                // token that is not preceded by /begin or /end and is a tag of the definition
+                fn nonblock_tags(t: &T, out: &mut Vec<(String, usize)>) {
+                    match t {
+                        T::Arr(of, _) => nonblock_tags(of, out),
+                        T::Struct(items) => items.iter().for_each(|i| nonblock_tags(i, out)),
+                        T::TaggedStruct(items) | T::TaggedUnion(items) => {
+                            for it in items {
+                                if !it.is_block && !it.seq {
+                                    let n = match &it.item { None => Some(0), Some(T::Scalar(_)) | Some(T::CharArr(_)) | Some(T::Enum(_)) => Some(1), _ => None };
+                                    if let Some(n) = n {
+                                        out.push((it.tag.clone(), n));
+                                    }
+                                }
+                                if let Some(x) = &it.item {
+                                    nonblock_tags(x, out);
+                                }
+                            }
+                        }
+                        _ => {}
+                    }
+                }
+                let mut tags = vec![];
+                nonblock_tags(&case.root, &mut tags);
+                let toks = insts2[which].clone();
+                let hit = (0..toks.len()).find_map(|i| {
+                    let (tag, n) = tags.iter().find(|(t, _)| *t == toks[i])?;
+                    if i > 0 && (toks[i - 1] == "/begin" || toks[i - 1] == "/end") {
+                        return None;
+                    }
+                    if i + n >= toks.len() + 0 && *n > 0 {
+                        return None;
+                    }
+                    Some((i, tag.clone(), *n))
+                });
+                let Some((i, tag, n)) = hit else { continue };
+                let mut v = toks[..i].to_vec();
+                v.push("/begin".into());
+                v.extend(toks[i..=i + n].iter().cloned());
+                v.push("/end".into());
+                v.push(tag);
+                v.extend(toks[i + n + 1..].iter().cloned());
+                insts2[which] = v;
+                fam = "wrapped-in-block";
+            } else if k == 3 || insts2[which].is_empty() {
                 insts2[which] = vec!["GARBAGE".into(), "1".into(), "/begin".into(), "X".into(), "\"s\"".into(), "/end".into(), "X".into(), "2.5".into()];
                 fam = "balanced-garbage";
             } else {
